@@ -156,9 +156,16 @@ structure CStep where
   mv : Bool
   pv : Bool
   iv : Bool
+  msz : Nat := 0        -- size of the (linear) measurement at this call; 0 = the size the model was configured with
+  rrFollows : Bool := false   -- the noise covariance has the size of the measurement (full SUKF covariance, additive UKF)
 deriving DecidableEq, Repr
 
-def MMod.withFlags (M : MMod) (s : CStep) : MMod := { M with mvalid := s.mv, pvalid := s.pv, ivalid := s.iv }
+/-- the measurement model as it answers at this call: validity flags, and — the model being time varying — possibly
+    another measurement size than at the previous call -/
+def MMod.withFlags (M : MMod) (s : CStep) : MMod :=
+  let M' : MMod := { M with mvalid := s.mv, pvalid := s.pv, ivalid := s.iv }
+  if s.msz = 0 then M'
+  else { M' with O := ⟨s.msz, 0, false, 0⟩, prows := s.msz, irows := s.msz, ysize := s.msz, rr := if s.rrFollows then s.msz else M.rr }
 
 /-- successive `correct()` + `getLikelihood()` on ONE UKFCorrection object -/
 def ukfSeq (additive : Bool) (I : Layout) (M : MMod) : UKFMem → List CStep → W (List String)
@@ -180,7 +187,7 @@ def sukfSeq (I : Layout) (M : MMod) (sub : Nat) (reduced : Bool) : SUKFMem → L
   | _, [] => pure []
   | mem, s :: ss => do
     let (mem', L, k) ← sukfStep mem I s.K I s.K (M.withFlags s) sub reduced
-    let (lv, ls) ← sukfLikelihood mem'.inn mem'.prop M.rr sub reduced
+    let (lv, ls) ← sukfLikelihood mem'.inn mem'.prop (M.withFlags s).rr sub reduced
     let rest ← sukfSeq I M sub reduced mem' ss
     pure (s!"{k}:{(L.meanS k).str}:{b01 lv}:{ls}" :: rest)
 
@@ -189,6 +196,30 @@ def sukfSeqCase (I : Layout) (M : MMod) (sub : Nat) (reduced : Bool) (steps : Li
   pure (some t)
 def sukfSeqValid (I : Layout) (M : MMod) (sub : Nat) (reduced : Bool) (steps : List CStep) : Prop :=
   ∀ s ∈ steps, sukfValid I s.K I s.K (M.withFlags s) sub reduced
+
+/-- members of a KFCorrection object: `innovations_` and the component count of `meas_covariances_` (overwritten only by a
+    successful correction) -/
+structure KFMem where
+  inn : Shape
+  K : Nat
+
+/-- successive `correct()` + `getLikelihood()` on ONE KFCorrection object over a linear model `H : hm × hn` -/
+def kfSeq (I : Layout) (hm hn ysize : Nat) : KFMem → List CStep → W (List String)
+  | _, [] => pure []
+  | mem, s :: ss => do
+    let r ← kfCorrect I s.K I s.K hm hn ysize s.mv
+    let mem' : KFMem := if s.mv then ⟨⟨hm, s.K⟩, s.K⟩ else mem
+    let (lv, ls) ← gaussLikelihood "KFCorrection" mem'.inn ⟨hm, 0, false, 0⟩ mem'.K
+    let rest ← kfSeq I hm hn ysize mem' ss
+    pure (s!"{r.K}:{(r.L.meanS r.K).str}:{b01 lv}:{ls}" :: rest)
+
+def kfSeqCase (I : Layout) (hm hn ysize : Nat) (steps : List CStep) : Case := do
+  if hm = 0 ∨ hn = 0 then pure none
+  else do
+    let t ← kfSeq I hm hn ysize ⟨⟨0, 0⟩, 1⟩ steps
+    pure (some t)
+def kfSeqValid (I : Layout) (hm hn ysize : Nat) (steps : List CStep) : Prop :=
+  ∀ s ∈ steps, kfValid I s.K I s.K hm hn ysize
 
 /-- successive `getNoiseSample(n)` and `motion` on `n` columns on ONE WhiteNoiseAcceleration object -/
 def wnaSeqCase (d : Dim) (nums : List Nat) : Case := do
@@ -315,6 +346,7 @@ instance (m c : Nat) : Decidable (gpfSampleValid m c) := by unfold gpfSampleVali
 
 instance (a : Bool) (I : Layout) (M : MMod) (st : List CStep) : Decidable (ukfSeqValid a I M st) := by unfold ukfSeqValid; infer_instance
 instance (I : Layout) (M : MMod) (sub : Nat) (r : Bool) (st : List CStep) : Decidable (sukfSeqValid I M sub r st) := by unfold sukfSeqValid; infer_instance
+instance (I : Layout) (hm hn y : Nat) (st : List CStep) : Decidable (kfSeqValid I hm hn y st) := by unfold kfSeqValid; infer_instance
 instance (I : Layout) (M : MMod) : Decidable (ukfSupported I M) := by unfold ukfSupported; infer_instance
 instance (I : Layout) : Decidable (sukfSupported I) := by unfold sukfSupported; infer_instance
 
